@@ -20,7 +20,7 @@ ASSUMPTIONS = ["stand-alone reference = fresh build of the same spec + profile v
 CONFIG = {"quick": {"shards": 8, "timeout_s": 600, "cases": 96},
           "thorough": {"shards": 16, "timeout_s": 3000, "cases": 2400}}
 REQUIRED_COUNTERS = ["steps_compared", "steps_failed_flag_checked", "series_with_infeasible_step", "series_continue_on_divergence",
-                     "series_raise_on_divergence_checked", "series_subset_or_shuffled", "series_thermal", "series_with_feeder_switching", "series_multi_energy", "steps_compared_multi_energy", "hook_pipeflow_events"]
+                     "series_raise_on_divergence_checked", "series_subset_or_shuffled", "series_thermal", "series_with_feeder_switching", "series_with_blackout_step", "series_multi_energy", "steps_compared_multi_energy", "hook_pipeflow_events"]
 _EVENTS = []
 
 
@@ -164,6 +164,16 @@ def make(case):
         for s in rng.choice(nsteps, int(rng.integers(1, 3)), replace=False):
             profiles[sinks[0]][int(s)] *= 1e5
             infeasible.append(int(s))
+    if rng.random() < 0.25:
+        # black-out steps: every feeder out of service - nothing is supplied, the calculation fails before its first iteration
+        feeders = [e for e in spec["elements"] if e["kind"] in ("ext_grid", "circ_pump_mass", "circ_pump_pressure")]
+        dark = set(int(x) for x in rng.choice(np.arange(1, nsteps), int(rng.integers(1, 3)), replace=False))
+        for e in feeders:
+            key = (netgen.table_of(e["kind"]), e["name"], "in_service")
+            base = profiles.get(key, [bool(e.get("in_service", True))] * nsteps)
+            profiles[key] = [False if i in dark else bool(b) for i, b in enumerate(base)]
+        infeasible += sorted(dark)
+        spec["blackout_steps"] = sorted(dark)
     steps = list(range(nsteps))
     mode = rng.random()
     if mode < 0.35:
@@ -226,6 +236,8 @@ def run_case(case, ctx):
         obs.count("series_thermal")
     if ("ext_grid", "eg_island", "in_service") in profiles:
         obs.count("series_with_feeder_switching")
+    if spec.get("blackout_steps") and set(spec["blackout_steps"]) & set(steps):
+        obs.count("series_with_blackout_step")
     params = ow.output.get("Parameters")
     failed_flags = {}
     if params is not None and "powerflow_failed" in params:
